@@ -327,6 +327,9 @@ impl PropImpl for C04 {
          (E) all histories of length <= 3 over 28 operations (2 paragraphs x names {A,B} x values {v, w\\nx}) on 12 fixed start layouts. Non-trivial: >= 2 model-changing steps on a document \
          with a comment, multi-line value, duplicate name or no final newline. Distinct by hash of (start, history).".into()
     }
+    fn expected_labels(&self) -> Vec<&'static str> {
+        vec!["op:set-existing", "op:set-append", "op:insert", "op:remove-one", "op:remove-duplicates", "op:remove-absent", "op:rename-existing", "op:rename-absent", "start:parsed", "start:built-document", "start:built-paragraph", "start:has-comment", "start:no-final-newline", "start:duplicate-name", "uses-fresh-handles", "paragraph-emptied"]
+    }
     fn budget(&self, tier: Tier) -> Budget {
         Budget { cases_per_lane: if tier == Tier::Quick { 10000 } else { 40_000 }, tape_max: 900, cpu_s: 10 }
     }
